@@ -17,19 +17,21 @@ HasBump(comp) ==
   \/ ("reward_functions" \in DOMAIN comp /\ \E k \in DOMAIN comp.reward_functions : HasBump(comp.reward_functions[k]))
   \/ ("terminating_functions" \in DOMAIN comp /\ \E k \in DOMAIN comp.terminating_functions : HasBump(comp.terminating_functions[k]))
 OutsideDomain(comp, st, a) == HasBump(comp) /\ ~AgentOK(st) /\ a \notin MoveActions
+\* triples whose states are not in the state space (agent outside the grid) are outside every component's domain
+InDomain(st, s2) == InGrid(st.grid, st.pos) /\ InGrid(s2.grid, s2.pos)
 
 IsEuclidProportional(comp) ==
   comp.name = "proportional_to_distance" /\ Param(comp, "distance_function", "manhattan") = "euclidean"
 
 RewardOK(comp, st, a, s2, res) ==
-  IF OutsideDomain(comp, st, a) THEN TRUE
+  IF ~InDomain(st, s2) \/ OutsideDomain(comp, st, a) THEN TRUE
   ELSE IF ~RewardPre(comp, st, s2) THEN TRUE   \* precondition unmet: any behaviour
   ELSE /\ res.o = "ok"
        /\ res.t = "float"
        /\ IF IsEuclidProportional(comp) THEN EuclidProportionalOK(comp, s2, res.v)
           ELSE res.x /\ res.v = Reward(comp, st, a, s2)
 TermOK(comp, st, a, s2, res) ==
-  IF OutsideDomain(comp, st, a) THEN TRUE
+  IF ~InDomain(st, s2) \/ OutsideDomain(comp, st, a) THEN TRUE
   ELSE res.o = "ok" /\ res.t = "bool" /\ res.v = Terminates(comp, st, a, s2)
 
 \* agreement between an exit reward (index ri, paying `on` # off) and exit termination (index ti)
